@@ -17,5 +17,7 @@ for _f in sorted(_glob.glob(_os.path.join(_os.path.dirname(_os.path.abspath(__fi
     exec(compile(open(_f).read(), _f, "exec"))
 
 # properties not (yet) claimed: filled in at the bottom so that MANIFEST.json is always valid
+# ready.txt: ids whose check has been integrated and verified green on the unchanged tree by the lead
+READY = set(open(_os.path.join(_os.path.dirname(_os.path.abspath(__file__)), "ready.txt")).read().split())
 NOT_APPLICABLE = [dict(property_id=i, reason="not yet covered by a check in this revision of /verif (work in progress; see DESIGN.md)")
-                  for i in ALL_IDS if i not in PROPS]
+                  for i in ALL_IDS if i not in PROPS or i not in READY]
